@@ -53,9 +53,8 @@ impl<T> Validator<T> {
             .next()
             .expect("validator's name must have two dot-separated components.");
 
-        let known_validator_name = split
-            .next()
-            .expect("validator's name must have two dot-separated components.");
+        // Blueprints written by other tools may use titles without a module component.
+        let known_validator_name = split.next().unwrap_or_default();
 
         (known_module_name, known_validator_name)
     }
